@@ -78,3 +78,17 @@ end
 def SetEq (a b : List Tuple) : Prop := ∀ x, x ∈ a ↔ x ∈ b
 
 end ILV.IR
+
+namespace ILV.IR
+
+/-- join trees over (filtered) scans: what `IRBuilder` puts below an `Aggregate` in the C06 fragment -/
+def isSetPlan : Node → Bool
+  | .scan _ _ => true
+  | .filter i _ => isSetPlan i
+  | .join l r _ _ _ => isSetPlan l && isSetPlan r
+  | _ => false
+
+/-- every stored relation is a set -/
+def DbSet (db : Db) : Prop := ∀ rel, (db.get rel).Nodup
+
+end ILV.IR
